@@ -455,8 +455,10 @@ func checkC12(c *Ctx) {
 				}
 			case "extras-removed":
 				// the first half of the declarations leaves the tree; objects of the rest still point there
-				if _, isImport := df.Decls[0].(*dst.GenDecl); !(isImport && len(df.Imports) > 0) && len(df.Decls) > 1 {
-					df.Decls = df.Decls[len(df.Decls)/2:]
+				if len(df.Decls) > 1 {
+					if _, isImport := df.Decls[0].(*dst.GenDecl); !(isImport && len(df.Imports) > 0) {
+						df.Decls = df.Decls[len(df.Decls)/2:]
+					}
 				}
 			case "edited":
 				r.Shuffle(len(df.Decls), func(a, b int) {
